@@ -11,9 +11,10 @@
    `cperm` of the sets Namespace._nested_namespaces, every extension / stem / output directory.
    `same` is the eqkey of the current code: since fix f08a0a1 Namespace.__eq__/__hash__ compare the unstropped
    _namespace_components, so NO input is excluded any more (no ns_fold premise). *)
-From Verif Require Import NamespaceBase NamespaceBuildThm NamespaceTreeThm NamespacePathThm NamespaceSortThm NamespaceThm.
+From Verif Require Import StropInst StropThmInst.     (* C09: the real stroppers *)
+From Verif Require Import NamespaceBase NamespaceBuildThm NamespaceTreeThm NamespacePathThm NamespaceSortThm NamespaceThm NamespaceFsThm NamespaceStropThm.
 From Coq Require Import Sorted.
-From Verif Require Import Gen_Pin_c11tree Gen_Pin_c11path Gen_C11Scan.
+From Verif Require Import Gen_Pin_c11tree Gen_Pin_c11path Gen_Pin_c11gen Gen_C11Scan.
 Open Scope N_scope.
 
 (* (0) source tie.  The model is valid for the pinned shape of: build_namespace_tree, _NamespaceFactory.*, Namespace.__eq__ /
@@ -23,6 +24,10 @@ Open Scope N_scope.
 Example C11_tree_shape_pinned : pin_c11tree_ok = true.
 Proof. reflexivity. Qed.
 Example C11_path_shape_pinned : pin_c11path_ok = true.
+Proof. reflexivity. Qed.
+(* DSDLCodeGenerator.generate_all: one _generate_type(type, output_path) per pair yielded by get_all_types / get_all_datatypes
+   (model: Namespace.c11_targets) *)
+Example C11_generate_all_shape_pinned : pin_c11gen_ok = true.
 Proof. reflexivity. Qed.
 
 (* both sites that turn a type into a file path -- Namespace._add_data_type (generated) and include generation (merely
@@ -36,6 +41,18 @@ Theorem C11_path_sites_same_id_type :
   length scan_path_id_types = 3%nat /\ forallb (str_eqb [112; 97; 116; 104]) scan_path_id_types = true.
 Proof. repeat split; reflexivity. Qed.
 Print Assumptions C11_path_sites_same_id_type.
+
+(* the extension handed to make_path by the OUTPUT chain (build_namespace_tree -> _add_data_type), by Namespace.__init__ for the
+   namespace file, and by the INCLUDE chains (lang/c and lang/cpp filter_includes -> language.extension ->
+   generate_include_filepart_list) is read from the SAME configuration key of the same section and forwarded unchanged; no
+   explicit `stropping` argument anywhere: both chains use Language.enable_stropping of the language they pass. *)
+Theorem C11_path_sites_same_extension_key_and_flags :
+  Forall (fun k => k = scan_ext_key_output) scan_ext_keys_include /\ length scan_ext_keys_include = 2%nat /\
+  scan_ext_key_namespace_file = scan_ext_key_output /\
+  scan_ext_read_from_same_section = true /\ scan_ext_forwarded_output = true /\ scan_ext_forwarded_include = true /\
+  scan_stropping_overrides = 0%nat.
+Proof. repeat split; repeat constructor. Qed.
+Print Assumptions C11_path_sites_same_extension_key_and_flags.
 
 (* (1) index_prefix_closed: after the loop over the types the ancestor index is exactly the set of all non-empty
    prefixes of the types' namespaces, without duplicates -- the invariant that makes the `break` sound. *)
@@ -114,6 +131,18 @@ Theorem C11_children_enumerated_in_name_order (strop : str -> str) (es : bool) (
 Proof. split; [exact sort_keys_perm | exact (children_in_name_order strop es ext outdir)]. Qed.
 Print Assumptions C11_children_enumerated_in_name_order.
 
+(* (5'') ... and that order is determined by the SET of children alone: it is the same for every order in which the index was
+   linked (PYTHONHASHSEED-independent visiting order, as a theorem). *)
+Theorem C11_children_order_independent_of_set_order (strop : str -> str) (es : bool) (ext : str) (outdir : path) :
+  forall perm1 perm2, (forall l, Permutation (perm1 l) l) -> (forall l, Permutation (perm2 l) l) ->
+  forall (types : list ty) (r : str), NoDup types -> one_root r types -> types <> [] ->
+  forall k n1 n2,
+    get (fst (build strop same es ext outdir perm1 types)) k = Some n1 ->
+    get (fst (build strop same es ext outdir perm2 types)) k = Some n2 ->
+    sort_keys (n_children n1) = sort_keys (n_children n2).
+Proof. intros perm1 perm2 P1 P2 types r. exact (children_order_independent_of_linking_order strop es ext outdir perm1 perm2 types r P1 P2). Qed.
+Print Assumptions C11_children_order_independent_of_set_order.
+
 (* (6) types_each_once: get_all_types / get_all_datatypes / get_all_namespaces from the root enumerate every type
    exactly once (with its output path) and every namespace exactly once, for every iteration order and every
    stropping function (also one that folds namespace names onto each other). *)
@@ -188,12 +217,18 @@ Theorem C11_ns_path_inside_outdir (strop : str -> str) (ext : str) (stem : str) 
 Proof. exact (ns_path_inside strop ext stem outdir). Qed.
 Print Assumptions C11_ns_path_inside_outdir.
 
-(* (11) include_path_eq_output_path: the path used to include a type that is merely referenced (make_path) is the
-   output path of the generated type relative to the output directory. *)
-Theorem C11_include_path_eq_output_path (strop : str -> str) (es : bool) (ext : str) (outdir : path) :
-  forall t, out_path strop es ext outdir t = outdir ++ include_path strop es ext t /\
-            relative_to_outdir outdir (out_path strop es ext outdir t) = include_path strop es ext t.
-Proof. exact (include_path_eq_output_path strop es ext outdir). Qed.
+(* (11) include_path_eq_output_path.  The two chains take their extension from the language configuration `cfg` (key -> value)
+   under the keys the scan found in the source; the path used to include a type that is merely referenced equals the output
+   path of the generated type relative to the output directory -- BECAUSE the scanned keys coincide (the proof unfolds the
+   regenerated definitions; with different keys the statement would be unprovable), both chains call make_path
+   (C11_path_sites_same_id_type) and pass the same stropping flag. *)
+Theorem C11_include_path_eq_output_path (strop : str -> str) (es : bool) (outdir : path) :
+  forall (cfg : str -> str) (t : ty),
+    Forall (fun key_inc =>
+              out_path strop es (cfg scan_ext_key_output) outdir t = outdir ++ include_path strop es (cfg key_inc) t /\
+              relative_to_outdir outdir (out_path strop es (cfg scan_ext_key_output) outdir t) = include_path strop es (cfg key_inc) t)
+           scan_ext_keys_include.
+Proof. intros cfg t. repeat constructor; exact (proj1 (include_path_eq_output_path strop es _ outdir t)) || exact (proj2 (include_path_eq_output_path strop es _ outdir t)). Qed.
 Print Assumptions C11_include_path_eq_output_path.
 
 (* (12) the type file lies in the output folder of its namespace's Namespace object (Namespace.output_folder), i.e. next to
@@ -204,28 +239,144 @@ Theorem C11_type_file_in_namespace_folder (strop : str -> str) (ext stem : str) 
 Proof. exact (type_file_in_namespace_folder strop ext stem outdir). Qed.
 Print Assumptions C11_type_file_in_namespace_folder.
 
-(* ---- documentation of the code BEFORE fix f08a0a1 (F-NS-FOLD, status fixed) -----------------------------------------------
-   With eqkey = strop (Namespace.__eq__ comparing the stropped name) the model loses a type: ns.class.Q.1.0 and
-   ns._class.R.1.0 with class -> _class.  All premises hold; ns._class is a Namespace object but not a child of ns, its
-   type R is never enumerated and cannot be found from the root.  The same input under the current code (eqkey = same)
-   is fine (instance of C11_types_each_once; second Example). *)
-Theorem C11_prefix_code_types_each_once_refuted :
-  exists (strop : str -> str) (types : list ty) (r : str) (perm cperm : list key -> list key) (t : ty),
-    NoDup types /\ one_root r types /\ types <> [] /\
-    (forall l, Permutation (perm l) l) /\ (forall l, Permutation (cperm l) l) /\
-    ns_fold strop types = true /\ In t types /\
-    let b := build strop strop true w_ext w_out perm types in
-    existsb (fun tp => ty_eqb (fst tp) t) (get_all_datatypes cperm (fst b) (snd b)) = false /\
-    find_output_path strop cperm (fst b) [r] t = None /\
-    In (t_ns t) (keys (fst b)).
-Proof.
-  exists w_strop, [w_Q; w_R], w_ns, w_id, w_id, w_R.
-  destruct w_premises as (A & B & C & D).
-  repeat (split; [first [exact A | exact B | exact C | exact D | exact w_fold | (right; left; reflexivity)]|]).
-  exact w_dropped.
-Qed.
-Print Assumptions C11_prefix_code_types_each_once_refuted.
+(* (12') the enable_stropping = false configuration: Namespace.__init__ strops the namespace folder unconditionally,
+   _make_ns_list does not strop the type's directories: the type file lies in its namespace's folder IFF stropping leaves the
+   namespace components unchanged; witness (ns.class.Q, class -> _class) where it does not. *)
+Theorem C11_type_file_folder_stropping_disabled (strop : str -> str) (ext stem : str) (outdir : path) :
+  forall t,
+    removelast (out_path strop false ext outdir t) = outdir ++ t_ns t /\
+    removelast (ns_path strop ext stem outdir (t_ns t)) = outdir ++ map strop (t_ns t) /\
+    (removelast (out_path strop false ext outdir t) = removelast (ns_path strop ext stem outdir (t_ns t))
+     <-> map strop (t_ns t) = t_ns t).
+Proof. exact (type_file_folder_stropping_disabled strop ext stem outdir). Qed.
+Print Assumptions C11_type_file_folder_stropping_disabled.
 
+Example C11_type_file_folder_stropping_disabled_differs :
+  removelast (out_path w_strop false w_ext w_out w_Q) <> removelast (ns_path w_strop w_ext [95] w_out (t_ns w_Q)).
+Proof. exact type_file_folder_stropping_disabled_witness. Qed.
+
+(* ---- FILE SYSTEM: the files a run writes -----------------------------------------------------------------------------------
+   c11_targets ... g perm types = the output paths DSDLCodeGenerator.generate_all writes, in order (g = generate_namespace_types:
+   get_all_types, else get_all_datatypes), for the current code.  C12 instantiates its type targets with it. *)
+
+(* (13) the written paths are, up to order, exactly: one file per type (+ one namespace file per namespace when g) *)
+Theorem C11_written_paths_are_type_and_namespace_files (strop : str -> str) (es : bool) (ext stem : str) (outdir : path) :
+  forall perm, (forall l, Permutation (perm l) l) ->
+  forall (types : list ty) (r : str), NoDup types -> one_root r types -> types <> [] ->
+    Permutation (c11_targets strop es ext stem outdir true perm types)
+                (map (ns_path strop ext stem outdir) (keys (fst (build strop same es ext outdir perm types)))
+                 ++ map (out_path strop es ext outdir) types) /\
+    Permutation (c11_targets strop es ext stem outdir false perm types) (map (out_path strop es ext outdir) types).
+Proof. exact (targets_perm strop es ext stem outdir). Qed.
+Print Assumptions C11_written_paths_are_type_and_namespace_files.
+
+(* (14) every written path is outdir followed by safe components (non-empty, no separator inside, not "." / ".." -- hence no
+   absolute component and no way up), so resolving it from ANY directory only descends; under identifier-likeness of the
+   stropped names -- discharged for the real stroppers in (17). *)
+Theorem C11_written_paths_inside_outdir (strop : str -> str) (es : bool) (ext stem : str) (outdir : path) :
+  forall perm, (forall l, Permutation (perm l) l) ->
+  forall (types : list ty) (r : str), NoDup types -> one_root r types -> types <> [] ->
+  forall g,
+    (forall x, In x (names_of types) -> ident_like (pstrop strop es x)) ->
+    (forall t x, In t types -> In x (t_ns t) -> ident_like (strop x)) ->
+    ident_like stem -> ~ In SLASH ext ->
+    forall q, In q (c11_targets strop es ext stem outdir g perm types) ->
+      exists rel, q = outdir ++ rel /\ Forall safe_comp rel /\ forall st, resolve st rel = rev rel ++ st.
+Proof. exact (targets_inside strop es ext stem outdir). Qed.
+Print Assumptions C11_written_paths_inside_outdir.
+
+(* (15) the written paths are pairwise distinct: distinct types get distinct files, distinct namespaces distinct namespace files,
+   and a type file is never a namespace file.  PARTIAL: besides stropping injectivity (names; namespaces: ns_fold strop = false)
+   the excluded trigger is a namespace-file stem equal to the stropped Short_M_m of a type (refuted below). *)
+Theorem c11_targets_distinct (strop : str -> str) (es : bool) (ext stem : str) (outdir : path) :
+  forall perm, (forall l, Permutation (perm l) l) ->
+  forall (types : list ty) (r : str), NoDup types -> one_root r types -> types <> [] ->
+    (forall x y, In x (names_of types) -> In y (names_of types) -> pstrop strop es x = pstrop strop es y -> x = y) ->
+    (forall t, In t types -> ~ In DOT (pstrop strop es (base_name t))) ->
+    ns_fold strop types = false -> ~ In DOT stem ->
+    (forall t, In t types -> pstrop strop es (base_name t) <> stem) ->
+    forall g, NoDup (c11_targets strop es ext stem outdir g perm types).
+Proof. exact (targets_distinct strop es ext stem outdir). Qed.
+Print Assumptions c11_targets_distinct.
+
+(* without namespace files only stropping injectivity on the names is needed *)
+Theorem c11_targets_distinct_types_only (strop : str -> str) (es : bool) (ext stem : str) (outdir : path) :
+  forall perm, (forall l, Permutation (perm l) l) ->
+  forall (types : list ty) (r : str), NoDup types -> one_root r types -> types <> [] ->
+    (forall x y, In x (names_of types) -> In y (names_of types) -> pstrop strop es x = pstrop strop es y -> x = y) ->
+    (forall t, In t types -> ~ In DOT (pstrop strop es (base_name t))) ->
+    NoDup (c11_targets strop es ext stem outdir false perm types).
+Proof. exact (targets_distinct_types_only strop es ext stem outdir). Qed.
+Print Assumptions c11_targets_distinct_types_only.
+
+(* the full statement of (15) (every stem) is FALSE of the faithful model: known finding F-NS-STEM-COLLIDE.  Witness: ns.T.1.0
+   with namespace-file stem "T_1_0": namespace file and type file are one path, written twice. *)
+Theorem c11_targets_distinct_refuted :
+  exists (strop : str -> str) (stem : str) (types : list ty) (r : str) (k : key) (t : ty),
+    NoDup types /\ one_root r types /\ types <> [] /\ In t types /\
+    In k (keys (fst (build strop same true w_ext w_out w_id types))) /\
+    ns_path strop w_ext stem w_out k = out_path strop true w_ext w_out t /\
+    c11_targets strop true w_ext stem w_out true w_id types = [ns_path strop w_ext stem w_out k; out_path strop true w_ext w_out t].
+Proof.
+  exists same, w_stem, [w_T], w_ns, [w_ns], w_T. destruct stem_collision_witness as (A & B & C & D).
+  split; [repeat constructor; intros []|]. split; [intros t [<-|[]]; eexists; reflexivity|]. split; [discriminate|]. auto.
+Qed.
+Print Assumptions c11_targets_distinct_refuted.
+
+(* ---- the REAL stroppers (C09: strop_lang l = TokenEncoder.strop with the regenerated configuration; identifier type "path") on
+   DSDL names (valid_ident, what pydsdl admits): real_strop l x = Language.filter_id(x, "path") ------------------------------ *)
+
+(* (16) the identifier-likeness hypotheses hold for every DSDL name, every language, stropping enabled or not *)
+Theorem C11_real_names_ident_like : forall (l : lang) (es : bool) (types : list ty),
+  dsdl_names_ok types -> forall x, In x (names_of types) -> ident_like (pstrop (real_strop l) es x).
+Proof. exact real_names_ident_like. Qed.
+Print Assumptions C11_real_names_ident_like.
+
+(* (17) hence (14) without stropping hypotheses: everything written for DSDL-named types lies below the output directory *)
+Theorem C11_real_written_paths_inside_outdir : forall (l : lang) (es : bool) (ext stem : str) (outdir : path) perm types r g,
+  (forall k, Permutation (perm k) k) -> NoDup types -> one_root r types -> types <> [] -> dsdl_names_ok types ->
+  ident_like stem -> ~ In SLASH ext ->
+  forall q, In q (c11_targets (real_strop l) es ext stem outdir g perm types) ->
+    exists rel, q = outdir ++ rel /\ Forall safe_comp rel /\ forall st, resolve st rel = rev rel ++ st.
+Proof. exact real_targets_inside. Qed.
+Print Assumptions C11_real_written_paths_inside_outdir.
+
+(* (18) injectivity is FALSE for the real stroppers (C09 strop_injective_refuted); exactly: two type files coincide iff the
+   namespace components and the file stems fold pairwise, fold l a b := real_strop l a = real_strop l b ... *)
+Theorem C11_real_paths_equal_iff_fold : forall (l : lang) (ext : str) (outdir : path) t1 t2,
+  valid_ident (t_short t1) = true -> valid_ident (t_short t2) = true ->
+  (out_path (real_strop l) true ext outdir t1 = out_path (real_strop l) true ext outdir t2
+   <-> Forall2 (fold l) (t_ns t1) (t_ns t2) /\ fold l (base_name t1) (base_name t2)).
+Proof. exact real_paths_equal_iff_fold. Qed.
+Print Assumptions C11_real_paths_equal_iff_fold.
+
+(* ... on clean names (valid, not reserved, no reserved pattern of type "path"/"all"; C++: no "__") folding is equality ... *)
+Theorem C11_real_fold_is_equality_on_clean : forall (l : lang) a b,
+  clean_lang l ty_path a = true -> clean_lang l ty_path b = true ->
+  (l = LCpp -> has_dunder a = false /\ has_dunder b = false) -> fold l a b -> a = b.
+Proof. exact fold_clean_eq. Qed.
+Print Assumptions C11_real_fold_is_equality_on_clean.
+
+(* ... so (9) holds with all hypotheses discharged when the names are clean ... *)
+Theorem C11_real_path_injective_on_clean : forall (l : lang) (ext : str) (outdir : path) types t1 t2,
+  dsdl_names_ok types ->
+  (forall x, In x (names_of types) -> clean_lang l ty_path x = true /\ (l = LCpp -> has_dunder x = false)) ->
+  In t1 types -> In t2 types ->
+  out_path (real_strop l) true ext outdir t1 = out_path (real_strop l) true ext outdir t2 -> t1 = t2.
+Proof. exact real_path_injective_on_clean. Qed.
+Print Assumptions C11_real_path_injective_on_clean.
+
+(* ... and a reserved word folds with its stropped spelling: two different DSDL types, one file (real C stropper; reproduced on
+   nnvg: ns/class/T.1.0 + ns/_class/T.1.0 -> only out/ns/_class/T_1_0.h).  This is the exception the property text makes
+   ("names folded onto one identifier by the documented one-way stropping"), not a finding. *)
+Example C11_real_fold_witness :
+  w_T1 <> w_T2 /\ dsdl_names_ok [w_T1; w_T2] /\
+  out_path (real_strop LC) true w_ext w_out w_T1 = out_path (real_strop LC) true w_ext w_out w_T2 /\
+  out_path (real_strop LC) true w_ext w_out w_T1 = w_out ++ [w_ns; 95 :: w_class; [84; 95; 49; 95; 48; 46; 104]].
+Proof. exact real_fold_witness. Qed.
+
+(* the F-NS-FOLD witness (ns.class.Q, ns._class.R, class -> _class) under the current code: both types kept.  What the code did
+   before fix f08a0a1 is recorded in History/C11_history.v. *)
 Example C11_fold_witness_kept_by_current_code :
   let b := build w_strop same true w_ext w_out w_id [w_Q; w_R] in
   existsb (fun tp => ty_eqb (fst tp) w_R) (get_all_datatypes w_id (fst b) (snd b)) = true /\
